@@ -1974,11 +1974,15 @@ class DynamicSeedingInstrumentation(transformer.DynamicSeedingInstrumentationAda
     ) -> None:
         node.basic_block[before(instr_index + 2)] = (
             self.instructions_generator.generate_instructions(
-                InstrumentationSetupAction.ADD_FIRST_TWO_REVERSED,
+                InstrumentationSetupAction.COPY_FIRST_TWO,
                 InstrumentationMethodCall(
                     self._dynamic_constant_provider,
-                    DynamicConstantProvider.add_value.__name__,
-                    (InstrumentationStackValue.FIRST,),
+                    DynamicConstantProvider.add_value_for_affix.__name__,
+                    (
+                        InstrumentationStackValue.SECOND,
+                        InstrumentationStackValue.FIRST,
+                        InstrumentationConstantLoad(value=True),
+                    ),
                 ),
                 instr.lineno,
             )
@@ -1997,11 +2001,15 @@ class DynamicSeedingInstrumentation(transformer.DynamicSeedingInstrumentationAda
     ) -> None:
         node.basic_block[before(instr_index + 2)] = (
             self.instructions_generator.generate_instructions(
-                InstrumentationSetupAction.ADD_FIRST_TWO,
+                InstrumentationSetupAction.COPY_FIRST_TWO,
                 InstrumentationMethodCall(
                     self._dynamic_constant_provider,
-                    DynamicConstantProvider.add_value.__name__,
-                    (InstrumentationStackValue.FIRST,),
+                    DynamicConstantProvider.add_value_for_affix.__name__,
+                    (
+                        InstrumentationStackValue.SECOND,
+                        InstrumentationStackValue.FIRST,
+                        InstrumentationConstantLoad(value=False),
+                    ),
                 ),
                 instr.lineno,
             )
